@@ -54,7 +54,8 @@ def build(case):
     T = [rng.choice(refs)[0]]
     # unrelated molecules: queries of another data set (other references), ids drawn among the unused ones so that they interleave
     other = es.make_dataset(case['ds_seed'] + 104729, max(4, case['nq'] // 3), case.get('nlab', 200))['queries']
-    free = [i for i in range(1, max(ids) + 40) if i not in set(ids)]
+    small = [i for i in ids if i < 10 ** 6]
+    free = [i for i in range(1, max(small + [0]) + 40) if i not in set(ids)]      # ids may be as large as 2^32: enumerate around the small ones only
     new_ids = rng.sample(free, len(other))
     added = [(ni, l, ps) for ni, (_, l, ps) in zip(new_ids, other)]
     order2 = qs[:]; rng.shuffle(order2)
